@@ -199,10 +199,19 @@ func runRecAlg(c *hx.Ctx, r *hx.Rng, n int) {
 		switch r.Intn(3) {
 		case 0:
 			// sort + dedup of rows in arrival order
+			// up to 12 rows, or (a third of the cases) 13..48 rows with many repeated timestamps: Go's
+			// sort switches from insertion sort to an unstable algorithm above 12 elements, so only these
+			// cases tell sort.Stable from sort.Sort
 			k := 1 + r.Intn(12)
+			span := 7
+			if r.Chance(33) {
+				k = 13 + r.Intn(36)
+				span = 3 + r.Intn(8)
+				c.Count("recalg:sort>12rows")
+			}
 			var rows []arow
 			for j := 0; j < k; j++ {
-				rows = append(rows, genARow(r, int64(r.Intn(7))))
+				rows = append(rows, genARow(r, int64(r.Intn(span))))
 			}
 			var ans string
 			perr := hx.Safe(func() {
